@@ -58,12 +58,14 @@ func (e *ExprEvaluator) getProgram(expression string) (*vm.Program, error) {
 	e.mu.RUnlock()
 
 	// Compile the expression
+	verifPoint(vpExprMiss, 0, 0)
 	prog, err := expr.Compile(expression, expr.AllowUndefinedVariables(), expr.DisableBuiltin("count"))
 	if err != nil {
 		return nil, fmt.Errorf("compile error: %w", err)
 	}
 
 	// Cache it
+	verifPoint(vpExprStore, 0, 0)
 	e.mu.Lock()
 	e.programs[expression] = prog
 	e.mu.Unlock()
